@@ -229,6 +229,14 @@ class Evaluator:
         if h == "ite":
             a, b = self.typeof(t[2]), self.typeof(t[3])
             return a if a == b else None
+        if h == "call" and t[1] == "next" and t[2]:
+            # next(iterable[, default]): an element of the iterable (the default case is tested separately by `is None`)
+            src = t[2][0]
+            while src[0] == "call" and src[1] == "iter" and len(src[2]) == 1:
+                src = src[2][0]
+            et = self.elem_type(src)
+            if et is not None:
+                return et if len(t[2]) == 1 or t[2][1] != NONE else ("union", (et, "none"))
         if h == "call" and t[1] in ("tuple", "list", "sorted", "dict", "str", "int", "bool", "len"):
             return {"tuple": ("tuple", None), "list": ("list", None), "sorted": ("list", None), "dict": ("dict", None, None),
                     "str": "str", "int": "int", "bool": "bool", "len": "int"}[t[1]]
@@ -1813,7 +1821,18 @@ class Evaluator:
                 neg.add(("eq", c[1], c[2]))
             if c[0] == "eq":
                 neg.add(("ne", c[1], c[2]))
-        return bool(pos & neg)
+        if pos & neg:
+            return True
+        # `x is not None` together with `not isinstance(x, T)` where x: Optional[T'] and T' is a T
+        notnone = {c[1][1] for c in conds if c[0] == "not" and c[1][0] == "isnone"}
+        for c in conds:
+            if c[0] == "not" and c[1][0] == "isinstance" and c[1][1] in notnone and isinstance(c[1][2], tuple):
+                typ = self.typeof(c[1][1])
+                if isinstance(typ, tuple) and typ and typ[0] == "union":
+                    rest = tuple(p for p in typ[1] if p != "none")
+                    if rest and all(self._isinstance_by_type(p, list(c[1][2])) is True for p in rest):
+                        return True
+        return False
 
     # -------------------------------------------------------------- constructors
     def construct(self, c: Cls, args, kwargs, state: State, func: Func, line: int):
